@@ -1,9 +1,28 @@
-(** Property C12 — a panic in a database callback leaves the solver usable. *)
-From Chalk Require Import Engine.RecEngine Engine.RecWitness.
+(** Property C12 — a panic in a callback leaves the solver usable.
+    Every callback of the engine is a numbered point of the model at which a panic can be
+    injected ([pn cf]); a panic unwinds to the caller and leaves the context as it was. *)
+From Chalk Require Import Engine.RecTheorems.
+
+(** After a panic at ANY callback point of a root solve (from any state whose cache is exact,
+    in particular after any history, see C10 [rec_cache_exact]): the only panics are injected
+    ones and the overflow guard, the cache is still exact, and every later root solve on the
+    same context either answers the declarative value (if uninterrupted), or panics for the
+    same two reasons -- never because of what the unwound solve left behind. *)
+Theorem rec_panic_restores : forall G cf fuel g s p s',
+  wf G -> ~ mixed_cycle G -> vr cf = repaired -> g < length G ->
+  cache_exact G s -> solve_root G cf fuel g s = Panic p s' ->
+  (p = Injected \/ p = OverflowDepth) /\ cache_exact G s' /\
+  forall fuel2 g2, g2 < length G ->
+    match solve_root G cf fuel2 g2 s' with
+    | Done v s'' => cache_exact G s'' /\ stack s'' = [] /\ sgraph s'' = [] /\ (quiet cf s' s'' -> sem G g2 v)
+    | Panic p2 s'' => cache_exact G s'' /\ (p2 = Injected \/ p2 = OverflowDepth)
+    | OutOfFuel => True
+    end.
+Proof. intros G cf fuel g s p s' Hwf Hnm. exact (rec_panic_restores_lemma G Hwf Hnm cf fuel g s p s'). Qed.
 
 (** F4 on the faithful model of the UNCHANGED engine. *)
 Theorem rec_panic_refuted :
   exists G g pan,
-    fst (run G (cfg unchanged [] pan) 100 [g; g] init_state) = [OPanic Injected; OPanic StackNotEmpty] /\
-    answer G (cfg unchanged [] []) 100 [g] init_state = Some (OVal Yes).
+    fst (run G (RecWitness.cfg unchanged [] pan) 100 [g; g] init_state) = [OPanic Injected; OPanic StackNotEmpty] /\
+    answer G (RecWitness.cfg unchanged [] []) 100 [g] init_state = Some (OVal Yes).
 Proof. exact RecWitness.rec_panic_refuted. Qed.
